@@ -1855,7 +1855,8 @@ public:
       SVectorBase<R>& row = rowVector_w(i);
       SVectorBase<R>& col = colVector_w(j);
 
-      if(isNotZero(val, this->tolerances()->epsilon()))
+      // an exact LP must not apply the floating-point zero tolerance to its data
+      if(std::numeric_limits<R>::is_exact ? (val != 0) : isNotZero(val, this->tolerances()->epsilon()))
       {
          R newVal;
 
@@ -1898,7 +1899,7 @@ public:
       SVectorBase<R>& row = rowVector_w(i);
       SVectorBase<R>& col = colVector_w(j);
 
-      if(mpq_get_d(*val) != R(0))
+      if(mpq_sgn(*val) != 0)
       {
          if(row.pos(j) >= 0 && col.pos(i) >= 0)
          {
